@@ -64,13 +64,14 @@ class History:
         self.start_ms = 0
         self.real = False
         self.tz = "UTC"
+        self.tmp_other_fs = False   # TMPDIR on another file system than the log directory
         self.loc = ""           # Qt system locale ("" = C.UTF-8); e.g. fa_IR.UTF-8 has non-ASCII native digits
         self.ops = []          # tuples: ("W", id, text, lag) ("ADV", ms) ("RESTART",) ("FLUSH",) ("FOREIGN", name, bytes) ("MKDIR", name) ("MIDNIGHT", k)
         self.tags = set()
 
     def config(self):
         return {"L": self.L, "N": self.N, "options": self.options, "fname": self.fname, "gran_ns": self.gran_ns,
-                "autoobs": self.autoobs, "start_ms": self.start_ms, "real": self.real, "tz": self.tz, "loc": self.loc}
+                "autoobs": self.autoobs, "start_ms": self.start_ms, "real": self.real, "tz": self.tz, "loc": self.loc, "tmp_other_fs": self.tmp_other_fs}
 
     def to_json(self):
         ops = []
@@ -199,6 +200,7 @@ def gen_history(rnd, profile):
     h.start_ms = int(base_day + rnd.randrange(0, 500) * DAY_MS + rnd.randrange(0, DAY_MS))
     if rnd.random() < profile.get("tz_p", 0.3):
         h.tz = rnd.choice(sorted(TZ_CHOICES))
+    h.tmp_other_fs = rnd.random() < 0.3
     if rnd.random() < profile.get("loc_p", 0.12):
         h.loc = rnd.choice(["fa_IR.UTF-8", "ar_EG.UTF-8", "ne_NP.UTF-8", "de_DE.UTF-8", "ja_JP.UTF-8"])
     if rnd.random() < 0.15:
@@ -282,6 +284,12 @@ def run_history(ctx, h, flavour="san", idx=0, keep_dir=False):
     with open(script, "w") as f:
         f.write(h.script(os.path.join(d, "logs")))
     env = core.base_env(ctx.tmp, tz=getattr(h, "tz", "UTC"), qt_locale=getattr(h, "loc", "") or None)
+    other_tmp = None
+    if getattr(h, "tmp_other_fs", False) and os.path.isdir("/dev/shm") and os.stat("/dev/shm").st_dev != os.stat(d).st_dev:
+        # the process's temporary directory lives on a different file system than the logs (tmpfs /tmp vs /var/log)
+        other_tmp = "/dev/shm/verif-tmp-%d-%d" % (os.getpid(), idx)
+        os.makedirs(other_tmp, exist_ok=True)
+        env["TMPDIR"] = other_tmp
     try:
         p = subprocess.run([exe, script, trace], env=env, stdout=subprocess.PIPE, stderr=subprocess.PIPE, timeout=300)
         rc, err = p.returncode, p.stderr.decode("utf-8", "replace")
@@ -295,6 +303,8 @@ def run_history(ctx, h, flavour="san", idx=0, keep_dir=False):
                     recs.append(json.loads(ln))
                 except ValueError:
                     break
+    if other_tmp:
+        shutil.rmtree(other_tmp, ignore_errors=True)
     if not keep_dir:
         shutil.rmtree(d, ignore_errors=True)
     return recs, rc, err
@@ -512,6 +522,14 @@ class Analysis:
                         ent["gz"] = True
                         del self.by_name[a]
                         self.by_name[a + ".gz"] = ent
+                elif (self.h.options & OPT_COMPRESS) and not a.endswith(".gz") and ent["created"] == op:
+                    # the file rotated in this very operation is unlinked although no complete compressed copy sits next to it (the newest
+                    # rotated file is never retention's victim): the compression step threw the original away
+                    self.add("C08", "C08:original-removed-before-gz-complete", "%s removed while no %s.gz exists" % (a, a), op)
+                    ent["content"] = snap
+                    ent["removed"] = op
+                    ent["cause"] = "compress-failed"
+                    del self.by_name[a]
                 else:
                     content = self.decode(a, snap, op) if snap is not None else None
                     ent["content"] = content if content is not None else ent["content"]
